@@ -41,7 +41,7 @@ reg("C16",
     "residual is never Ok); the test never changes the returned record; sample returns the MatrixError whenever the "
     "routine fails and an Ok sample satisfies the residual bound. Correspondence on definite / zero-pivot / indefinite "
     "/ NaN / ill-conditioned / underflowing matrices x 8 tolerances; exact-rational residual oracle on the real code.",
-    "NaN propagation through + - * sqrt is IEEE behaviour of Float/f64 (assumed); theorems describe the code after fix commits 9f39851, 641a06a.",
+    "NaN clause: ok_no_nan is proved under the explicit law class NaNLaws (NaN propagates through + - * sqrt, NaN<=t false), shown consistent by a model; that Float/f64 satisfy it is IEEE-754 (assumed). Theorems describe the code after fix commits 9f39851, 641a06a.",
     "Lean 4 law-free theorems + differential correspondence + exact rational oracle",
     "DESIGN.md §3 C16")
 
@@ -50,9 +50,10 @@ reg("C03",
     "formula), generalized_dod = 1 for the empty set and sum w - L(s) D/2 [- dod iff spanning] otherwise, the spanning flag "
     "iff all massive edges are present and some returned component touches every external, the dimension formula, and "
     "exactness of one component search (the set found from a seed is exactly the class of edges chained to it by shared "
-    "end points; Mathlib ReflTransGen). The partition of a subset into components by the outer loop and the vertex-count "
-    "identity are covered by the exhaustive correspondence (every multigraph with <=3/4 edges on 4 vertex slots, all subsets) "
-    "and the union-find oracle, not yet by a theorem: level is partial for those clauses.",
+    "end points; Mathlib ReflTransGen); the returned components are exactly the connectivity classes (each the full class of "
+    "a seed, pairwise disjoint, covering the subset) and the loop number is the cyclomatic number: loops + touched vertices = "
+    "edges + components, for every duplicate-free list of valid edge ids (tree bound by induction over the search rounds). "
+    "Correspondence: every multigraph with <=3/4 edges on 4 vertex slots, all subsets; union-find/Fraction oracle.",
     "Hash sets modelled as duplicate-free lists (only membership/cardinality is used); f64 rounding of generalized_dod measured against exact rationals.",
     "Lean 4 law-free theorems + exhaustive small-graph correspondence + union-find/Fraction oracle",
     "DESIGN.md §3 C03")
@@ -64,7 +65,7 @@ reg("C04",
     "table. At alpha:=R: edge probabilities sum to one; closed form of the cached factor. Correspondence: model fillJ on the "
     "implementation's own dods vs j_function (4 ulp), cachedFactor with statrs Gamma values; oracle: exact Fraction recursion, "
     "explicit sum over all E! orderings, mpmath normalisation.",
-    "statrs::gamma is external (values supplied by the harness); the E!-orderings identity is checked by the oracle, not yet a theorem.",
+    "statrs::gamma is external (values supplied by the harness). The E!-orderings identity is a theorem at alpha:=R (J_eq_sum_orderings with orderings = all permutations, each once) and also checked by the oracle.",
     "Lean 4 invariant proof of the memoised recursion + differential correspondence + exact rational oracle",
     "DESIGN.md §3 C04")
 
@@ -74,7 +75,7 @@ reg("C05",
     "the computed flags and degrees with no divergent proper subset; the model has no input besides the graph (determinism). "
     "Correspondence on Ok/Err incl. near-threshold weights; exact rational iff outside the 1e-9 band; J finite>0; rebuilt in the "
     "same and in a fresh process; E=63/64 panic is the open known finding.",
-    "No-panic clause only explored for E<=8 plus the E=63/64 probe; J positivity is an oracle check, not yet a theorem.",
+    "No-panic clause only explored for E<=8 plus the E=63/64 probe; J positivity of accepted tables is a theorem at alpha:=R (table_j_pos) and an oracle check on f64.",
     "Lean 4 law-free theorems + differential correspondence + exact rational oracle",
     "DESIGN.md §3 C05")
 
@@ -84,7 +85,7 @@ reg("C06",
     "below u), or the last edge when no running sum reaches u<=1; for every non-empty subgraph and every u<=1 an edge is "
     "selected (no panic) - for every scalar type, hence for IEEE f64 with rounded sums and u one ulp below 1. Correspondence "
     "on every boundary +-1ulp; exact rational oracle on the real code.",
-    "Float assumed IEEE; the exact-arithmetic interval statement (probability p_e per edge) is checked by the oracle.",
+    "Float assumed IEEE; at alpha:=R sampleEdge_interval / sampleEdge_total_real prove that edge e is selected iff u lies in its interval of length p_e and that the fallback is never needed.",
     "Lean 4 law-free theorems + differential correspondence + exact rational oracle",
     "DESIGN.md §3 C06")
 
